@@ -2314,3 +2314,150 @@ Proof.
   intros D Hv He Hb. destruct (construct_total D) as [land Hc]. exists land. split; auto.
   intros k t H0 H1. eapply sweep_eq_lambda; eauto.
 Qed.
+(* ================================================================ a PL function is linear where it has no breakpoint *)
+Lemma line_val_left : forall p q, line_val p q (fst p) == snd p.
+Proof. intros p q; unfold line_val. setoid_replace (fst p - fst p) with 0 by ring. unfold Qdiv. ring. Qed.
+Lemma interp_segment_closed : forall l i x, xsorted l -> (i + 1 < length l)%nat ->
+  fst (nthp l i) <= x -> x <= fst (nthp l (i + 1)) -> interp l x == line_val (nthp l i) (nthp l (i + 1)) x.
+Proof.
+  intros l i x Hs Hi H1 H2. destruct (Qlt_le_dec (fst (nthp l i)) x) as [Hlt|Hle].
+  - apply interp_segment; auto.
+  - assert (E : x == fst (nthp l i)) by lra. rewrite (interp_comp l _ _ E).
+    rewrite interp_at_breakpoint; auto; [|apply nth_In; lia].
+    unfold line_val. rewrite E. setoid_replace (fst (nthp l i) - fst (nthp l i)) with 0 by ring. unfold Qdiv. ring.
+Qed.
+Lemma interp_left : forall l x, l <> [] -> x <= fst (nthp l 0) -> interp l x == snd (nthp l 0).
+Proof.
+  intros [|p l] x H Hx; [congruence|]. unfold nthp in *; simpl in *. apply Qle_bool_iff in Hx. rewrite Hx. reflexivity.
+Qed.
+Lemma interp_from_right : forall l p x, (forall q, In q l -> fst q < x) -> interp_from p l x = snd (last l p).
+Proof.
+  induction l as [|a l IH]; intros p x H; [reflexivity|]. cbn [interp_from].
+  assert (E : Qle_bool x (fst a) = false).
+  { destruct (Qle_bool x (fst a)) eqn:E; auto. apply Qle_bool_iff in E. specialize (H a (or_introl eq_refl)). lra. }
+  rewrite E. rewrite IH by (intros; apply H; right; auto). rewrite last_cons. reflexivity.
+Qed.
+Lemma interp_right : forall l x, xsorted l -> l <> [] -> fst (nthp l (length l - 1)) <= x -> interp l x == snd (nthp l (length l - 1)).
+Proof.
+  intros l x Hs Hne Hx. destruct (Qlt_le_dec (fst (nthp l (length l - 1))) x) as [Hlt|Hle].
+  - destruct l as [|p l]; [congruence|]. cbn [interp].
+    assert (Hall : forall q, In q (p :: l) -> fst q < x).
+    { intros q Hq. destruct (In_nth _ _ pt0 Hq) as [i [Hi Ei]]. 
+      destruct (Nat.eq_dec i (length (p :: l) - 1)) as [e|ne].
+      - rewrite <- Ei, e. exact Hlt.
+      - eapply Qlt_trans; [|exact Hlt]. rewrite <- Ei. apply (xsorted_nth_lt (p :: l)); auto; lia. }
+    assert (E : Qle_bool x (fst p) = false).
+    { destruct (Qle_bool x (fst p)) eqn:E; auto. apply Qle_bool_iff in E. specialize (Hall p (or_introl eq_refl)). lra. }
+    rewrite E. rewrite interp_from_right by (intros; apply Hall; right; auto).
+    unfold nthp. rewrite <- (last_nth (p :: l) pt0), last_cons. reflexivity.
+  - assert (E : x == fst (nthp l (length l - 1))) by lra. rewrite (interp_comp l _ _ E).
+    apply interp_at_breakpoint; auto. apply nth_In. destruct l; [congruence | simpl; lia].
+Qed.
+
+Lemma find_segment : forall l a, xsorted l -> fst (nthp l 0) <= a -> a < fst (nthp l (length l - 1)) ->
+  exists i, (i + 1 < length l)%nat /\ fst (nthp l i) <= a /\ a < fst (nthp l (i + 1)).
+Proof.
+  induction l as [|p l IH]; intros a Hs H0 H1; [unfold nthp in *; simpl in *; lra|].
+  destruct l as [|q tl]; [unfold nthp in *; simpl in *; lra|].
+  destruct (Qlt_le_dec a (fst q)) as [Hlt|Hle].
+  - exists O. unfold nthp; simpl. repeat split; auto; lia.
+  - assert (Hs' : xsorted (q :: tl)) by (unfold xsorted in *; simpl in *; inversion Hs; auto).
+    destruct (IH a Hs' Hle) as [i [Hi [Ha Hb]]].
+    { replace (length (q :: tl) - 1)%nat with (length (p :: q :: tl) - 1 - 1)%nat by (simpl; lia).
+      change (nthp (q :: tl) (length (p :: q :: tl) - 1 - 1)) with (nthp (p :: q :: tl) (S (length (p :: q :: tl) - 1 - 1))).
+      replace (S (length (p :: q :: tl) - 1 - 1)) with (length (p :: q :: tl) - 1)%nat by (simpl; lia). exact H1. }
+    exists (S i). repeat split; auto. simpl in *; lia.
+Qed.
+Lemma line_val_linear : forall p q a b t, ~ fst q - fst p == 0 -> ~ b - a == 0 ->
+  line_val p q t == line_val p q a + (line_val p q b - line_val p q a) * ((t - a) / (b - a)).
+Proof. intros p q a b t H1 H2; unfold line_val; field; split; auto. Qed.
+
+Theorem interp_linear_between : forall l a b t, xsorted l -> a < b ->
+  (forall p, In p l -> ~ (a < fst p /\ fst p < b)) -> a <= t -> t <= b ->
+  interp l t == interp l a + (interp l b - interp l a) * ((t - a) / (b - a)).
+Proof.
+  intros l a b t Hs Hab Hno Hat Htb.
+  destruct l as [|p0 l0] eqn:El; [simpl; unfold Qdiv; ring|]. rewrite <- El in *.
+  assert (Hne : l <> []) by (rewrite El; discriminate).
+  assert (Hlen : (1 <= length l)%nat) by (rewrite El; simpl; lia).
+  destruct (Qlt_le_dec (fst (nthp l 0)) b) as [H1|H1].
+  2:{ rewrite !(interp_left l) by (auto; lra). unfold Qdiv; ring. }
+  destruct (Qlt_le_dec a (fst (nthp l (length l - 1)))) as [H2|H2].
+  2:{ rewrite !(interp_right l) by (auto; lra). unfold Qdiv; ring. }
+  assert (H0 : fst (nthp l 0) <= a).
+  { destruct (Qlt_le_dec a (fst (nthp l 0))) as [Hc|]; auto. exfalso. apply (Hno (nthp l 0)); [apply nth_In; lia | split; auto]. }
+  destruct (find_segment l a Hs H0 H2) as [i [Hi [Ha Hb]]].
+  assert (Hb' : b <= fst (nthp l (i + 1))).
+  { destruct (Qlt_le_dec (fst (nthp l (i + 1))) b) as [Hc|]; auto. exfalso. apply (Hno (nthp l (i + 1))); [apply nth_In; lia | split; auto]. }
+  rewrite (interp_segment_closed l i t), (interp_segment_closed l i a), (interp_segment_closed l i b) by (auto; lra).
+  apply line_val_linear; [|lra].
+  pose proof (xsorted_nth_lt l i (i + 1) Hs ltac:(lia) Hi). lra.
+Qed.
+
+(* any strictly increasing breakpoint list that contains the abscissae of two PL functions and carries oper(f,g) at its own
+   breakpoints is the pointwise combination everywhere: a finite check decides the correctness of a sum or difference *)
+Section Comb.
+  Variable oper : Q -> Q -> Q.
+  Hypothesis oper_comp : forall a a' b b', a == a' -> b == b' -> oper a b == oper a' b'.
+  Hypothesis oper_lin : forall y1 y2 y1' y2' s,
+    oper (y1 + (y2 - y1) * s) (y1' + (y2' - y1') * s) == oper y1 y1' + (oper y2 y2' - oper y1 y1') * s.
+
+  Lemma no_point_between : forall (r l : list pt) i (p : pt), xsorted r -> (i + 1 < length r)%nat ->
+    (forall p, In p l -> exists q, In q r /\ fst q == fst p) -> In p l ->
+    ~ (fst (nthp r i) < fst p /\ fst p < fst (nthp r (i + 1))).
+  Proof.
+    intros r l i p Hs Hi Hsub Hp [H1 H2]. destruct (Hsub p Hp) as [q [Hq Eq]].
+    destruct (In_nth _ _ pt0 Hq) as [j [Hj Ej]]. fold (nthp r j) in Ej. rewrite <- Eq, <- Ej in H1, H2.
+    destruct (Nat.lt_trichotomy j i) as [Hlt|[Heq|Hgt]].
+    - pose proof (xsorted_nth_lt r j i Hs Hlt ltac:(lia)). lra.
+    - subst j. lra.
+    - destruct (Nat.eq_dec j (i + 1)) as [e|ne]; [subst j; lra|].
+      pose proof (xsorted_nth_lt r (i + 1) j Hs ltac:(lia) Hj). lra.
+  Qed.
+
+  Theorem pl_combination_determined : forall l1 l2 r, xsorted l1 -> xsorted l2 -> xsorted r -> r <> [] ->
+    (forall p, In p l1 -> exists q, In q r /\ fst q == fst p) ->
+    (forall p, In p l2 -> exists q, In q r /\ fst q == fst p) ->
+    (forall q, In q r -> snd q == oper (interp l1 (fst q)) (interp l2 (fst q))) ->
+    forall t, fst (nthp r 0) <= t -> t <= fst (nthp r (length r - 1)) -> interp r t == oper (interp l1 t) (interp l2 t).
+  Proof.
+    intros l1 l2 r H1 H2 Hr Hne S1 S2 Hy t Ht0 Ht1.
+    assert (Hlen : (1 <= length r)%nat) by (destruct r; [congruence | simpl; lia]).
+    assert (Hbp : forall j, (j < length r)%nat -> t == fst (nthp r j) -> interp r t == oper (interp l1 t) (interp l2 t)).
+    { intros j Hj E.
+      rewrite (interp_comp r _ _ E), (oper_comp _ _ _ _ (interp_comp l1 _ _ E) (interp_comp l2 _ _ E)).
+      rewrite interp_at_breakpoint by (auto; apply nth_In; lia). apply Hy. apply nth_In; lia. }
+    destruct (Qlt_le_dec t (fst (nthp r (length r - 1)))) as [Hlt|Hge].
+    2:{ apply (Hbp (length r - 1)%nat); [lia | lra]. }
+    destruct (find_segment r t Hr Ht0 Hlt) as [i [Hi [Ha Hb]]].
+    set (a := fst (nthp r i)) in *. set (b := fst (nthp r (i + 1))) in *.
+    assert (Hab : a < b) by lra.
+    rewrite (interp_segment_closed r i t Hr Hi) by (fold a b; lra).
+    assert (E1 := interp_linear_between l1 a b t H1 Hab (fun p Hp => no_point_between r l1 i p Hr Hi S1 Hp) ltac:(lra) ltac:(lra)).
+    assert (E2 := interp_linear_between l2 a b t H2 Hab (fun p Hp => no_point_between r l2 i p Hr Hi S2 Hp) ltac:(lra) ltac:(lra)).
+    rewrite (oper_comp _ _ _ _ E1 E2). rewrite oper_lin. unfold line_val. fold a b.
+    rewrite (Hy (nthp r i)) by (apply nth_In; lia). rewrite (Hy (nthp r (i + 1))) by (apply nth_In; lia).
+    fold a b. reflexivity.
+  Qed.
+End Comb.
+
+Theorem pl_sum_determined : forall l1 l2 r, xsorted l1 -> xsorted l2 -> xsorted r -> r <> [] ->
+  (forall p, In p l1 -> exists q, In q r /\ fst q == fst p) ->
+  (forall p, In p l2 -> exists q, In q r /\ fst q == fst p) ->
+  (forall q, In q r -> snd q == interp l1 (fst q) + interp l2 (fst q)) ->
+  forall t, fst (nthp r 0) <= t -> t <= fst (nthp r (length r - 1)) -> interp r t == interp l1 t + interp l2 t.
+Proof.
+  apply (pl_combination_determined Qplus).
+  - intros a a' b b' H H0; rewrite H, H0; reflexivity.
+  - intros; ring.
+Qed.
+Theorem pl_difference_determined : forall l1 l2 r, xsorted l1 -> xsorted l2 -> xsorted r -> r <> [] ->
+  (forall p, In p l1 -> exists q, In q r /\ fst q == fst p) ->
+  (forall p, In p l2 -> exists q, In q r /\ fst q == fst p) ->
+  (forall q, In q r -> snd q == interp l1 (fst q) - interp l2 (fst q)) ->
+  forall t, fst (nthp r 0) <= t -> t <= fst (nthp r (length r - 1)) -> interp r t == interp l1 t - interp l2 t.
+Proof.
+  apply (pl_combination_determined Qminus).
+  - intros a a' b b' H H0; rewrite H, H0; reflexivity.
+  - intros; ring.
+Qed.
